@@ -25,8 +25,8 @@ def _cellval(ctx, vkind, name):
     raise ValueError(vkind)
 
 
-def assign_nd(ctx, shape, lkinds, kinds, rhs='scalar', via='setitem', inplace=True, cast=False, dkind='f', vkind='f', position=False):
-    a, ref, dims, labels = build(ctx, shape, lkinds, dkind)
+def assign_nd(ctx, shape, lkinds, kinds, rhs='scalar', via='setitem', inplace=True, cast=False, dkind='f', vkind='f', position=False, order=None):
+    a, ref, dims, labels = build(ctx, shape, lkinds, dkind, order=order)
     attrs = {'units': 'm', 'hist': [1, 2]}
     a.attrs.update(attrs)
     idx = []
@@ -244,17 +244,59 @@ def cast_pairs(ctx, akind, vkind, cast, via, inplace=True, rhs='scalar'):
     return ctx.done(ctx.AND(*oks), [ctx.observe(res), ctx.observe(a)], inplace=True)
 
 
+def put_broadcast(ctx, akind, vkind, cast, inplace, form):
+    """put(..., broadcast=True): NumPy's own fancy-index assignment on the looked-up positions (index arrays paired, not crossed)"""
+    shape = [2, 3]
+    a, ref, dims, labels = build(ctx, shape, ['i', 'U'], akind)
+    k = 2
+    p0 = [ctx.choice('p0_%d' % j, 2) for j in range(k)]
+    p1 = [ctx.choice('p1_%d' % j, 3) for j in range(k)]
+    for x in range(k):
+        for y in range(x + 1, k):
+            ctx.assume(ctx.NOT(ctx.AND(p0[x] == p0[y], p1[x] == p1[y])))
+    if form == 'labels':
+        idx = ([labels[0][i] for i in p0], [labels[1][j] for j in p1])
+        kw = {}
+    else:
+        idx = (list(p0), list(p1))
+        kw = {'indexing': 'position'}
+    vs = [_cellval(ctx, vkind, 'rhs%d' % j) for j in range(k)]
+    value = ctx.nparray(vs, kind=vkind if vkind != 'nan' else 'f')
+    if cast:
+        kw['cast'] = True
+    r = ctx.call(lambda: a.put(idx, value, broadcast=True, inplace=inplace, **kw))
+    if r[0] != 'ok':
+        return ctx.done(False, r[1], inplace=True)
+    res = a if inplace else r[1]
+    exp = list(ref.cells)
+    for i, j, v in zip(p0, p1, vs):
+        exp[i * 3 + j] = v
+    oks = [same(ctx, res, Ref(dims, labels, exp))]
+    if not inplace:
+        oks.append(same(ctx, a, ref, check_kind=akind))
+    return ctx.done(ctx.AND(*oks), [ctx.observe(res), ctx.observe(a)], inplace=True)
+
+
 def _value_preserving(akind, vkind):
     if akind == 'O' or akind == vkind:
         return True
     return (akind, vkind) in (('f', 'i'),)
 
 
-def values_setter(ctx, dkind, vkind):
-    """a.values = new : whole-array replacement widens like cast=True"""
+def values_setter(ctx, dkind, vkind, form='full'):
+    """a.values = new : whole-array replacement (or a broadcast scalar / row) widens like cast=True and keeps the shape"""
     a, ref, dims, labels = build(ctx, [2, 2], ['i', 'U'], dkind)
-    vs = [_cellval(ctx, vkind, 'n%d' % j) for j in range(4)]
-    new = ctx.nparray(vs, [2, 2], kind=vkind)
+    if form == 'full':
+        vs = [_cellval(ctx, vkind, 'n%d' % j) for j in range(4)]
+        new = ctx.nparray(vs, [2, 2], kind=vkind)
+    elif form == 'scalar':
+        v = _cellval(ctx, vkind, 'n0')
+        vs = [v] * 4
+        new = v
+    else:
+        row = [_cellval(ctx, vkind, 'n%d' % j) for j in range(2)]
+        vs = row + row
+        new = ctx.nparray(row, kind=vkind) if form == 'row' else list(row)
 
     def f():
         a.values = new
@@ -299,6 +341,13 @@ def templates():
                 quick = shape == [2, 2, 2] or rhs == 'array'
                 add('3d-%s-%s-%s' % ('-'.join(kinds), rhs, 'x'.join(map(str, shape))), 'assign_nd', 'quick' if quick else 'thorough', cost=6,
                     shape=shape, lkinds=['i', 'U', 'f'], kinds=list(kinds), rhs=rhs)
+    # unequal sizes, slice next to a list / scalar in every arrangement (axes kept increasing: lookup order is C01's business)
+    import itertools as _it
+    for kinds in sorted(set(_it.permutations(['slice', 'list2', 'full'])) | set(_it.permutations(['slice', 'list2', 'present']))):
+        for rhs in ('scalar', 'array'):
+            add('3d-uneq-%s-%s' % ('-'.join(kinds), rhs), 'assign_nd', cost=4, shape=[2, 3, 4], lkinds=['i', 'i', 'i'], kinds=list(kinds), rhs=rhs, order='inc')
+    for kinds in (('slice', 'list2', 'full'), ('full', 'slice', 'list2')):
+        add('3d-uneq-pos-%s' % '-'.join(kinds), 'assign_nd', cost=4, shape=[2, 3, 4], lkinds=['i', 'i', 'i'], kinds=list(kinds), rhs='array', position=True, via='put', inplace=False, order='inc')
     # spellings
     for via in ('loc', 'putdict', 'put'):
         for inplace in (True, False):
@@ -336,4 +385,14 @@ def templates():
             add('cast-%s-%s-notinplace' % (ak, vk), 'cast_pairs', cost=0.3, akind=ak, vkind=vk, cast=True, via='put', inplace=False)
     for dk, vk in (('i', 'f'), ('f', 'i'), ('i', 'U'), ('f', 'f')):
         add('values-setter-%s-%s' % (dk, vk), 'values_setter', cost=0.3, dkind=dk, vkind=vk)
+        for form in ('scalar', 'row', 'rowlist'):
+            add('values-setter-%s-%s-%s' % (dk, vk, form), 'values_setter', cost=0.3, dkind=dk, vkind=vk, form=form)
+    add('values-setter-i-nan-scalar', 'values_setter', cost=0.3, dkind='i', vkind='nan', form='scalar')
+    for ak, vk in (('f', 'f'), ('i', 'f'), ('i', 'i'), ('f', 'i'), ('i', 'U'), ('b', 'i'), ('i', 'nan')):
+        for cast in (True, False):
+            if not cast and not _value_preserving(ak, vk if vk != 'nan' else 'f'):
+                continue
+            for inplace in (True, False):
+                for form in ('labels', 'positions'):
+                    add('put-broadcast-%s-%s-%s-%s-%s' % (ak, vk, cast, inplace, form), 'put_broadcast', cost=1, akind=ak, vkind=vk, cast=cast, inplace=inplace, form=form)
     return ts
